@@ -140,3 +140,279 @@ Qed.
 (* sub-sequences of a sorted stream are sorted: what preserve_order feeds its k-way merge with (the merge is C08's) *)
 Lemma filter_sorted {X} (le : X -> X -> Prop) f l : StronglySorted le l -> StronglySorted le (filter f l).
 Proof. apply StronglySorted_filter. Qed.
+
+(* ================================================================== I. the abstract exchange *)
+Section ExchangeProofs.
+  Variable R St : Type.
+  Variable step : St -> list R -> St * list (nat * list R).
+  Variable inputs : nat -> list (list R).
+  Variable s0 : nat -> St.
+  Notation xst := (xst R St).
+  Notation prun := (prun R St step).
+  Notation xrun := (xrun R St step inputs s0).
+
+  Lemma prun_snoc p : forall bs s b,
+    prun s (bs ++ [b]) p =
+    let '(s1, r1) := prun s bs p in
+    match b with
+    | [] => (s1, r1)
+    | _ => let '(s', outs) := step s1 b in (s', r1 ++ rows_for p outs)
+    end.
+  Proof.
+    induction bs as [|c bs IH]; intros s b.
+    - simpl. destruct b; auto. destruct (step s (r :: b)) as [s' outs]. now rewrite app_nil_r.
+    - destruct c as [|r c].
+      + simpl. apply IH.
+      + change (prun s (((r :: c) :: bs) ++ [b]) p) with
+          (let '(s', outs) := step s (r :: c) in let '(s'', rest) := prun s' (bs ++ [b]) p in (s'', rows_for p outs ++ rest)).
+        change (prun s ((r :: c) :: bs) p) with
+          (let '(s', outs) := step s (r :: c) in let '(s'', rest) := prun s' bs p in (s'', rows_for p outs ++ rest)).
+        destruct (step s (r :: c)) as [s' outs]. rewrite IH. destruct (prun s' bs p) as [s1 r1].
+        destruct b; auto. destruct (step s1 (r0 :: b)) as [s2 outs2]. now rewrite app_assoc.
+  Qed.
+
+  Lemma prun_state_indep p q : forall bs s, fst (prun s bs p) = fst (prun s bs q).
+  Proof.
+    induction bs as [|c bs IH]; intros s; auto. destruct c as [|r c]; simpl; auto.
+    destruct (step s (r :: c)) as [s' outs]. specialize (IH s').
+    destruct (prun s' bs p), (prun s' bs q). simpl in *. auto.
+  Qed.
+
+  Lemma firstn_snoc {X} : forall (l : list X) k b, nth_error l k = Some b -> firstn (S k) l = firstn k l ++ [b].
+  Proof.
+    induction l as [|a l IH]; intros [|k] b H; simpl in H; try discriminate.
+    - injection H as ->. reflexivity.
+    - simpl. f_equal. apply IH. exact H.
+  Qed.
+
+  Lemma from_input_app i (q1 q2 : list (nat * R)) : from_input R i (q1 ++ q2) = from_input R i q1 ++ from_input R i q2.
+  Proof. unfold from_input. now rewrite filter_app, map_app. Qed.
+  Lemma from_input_tag i j (rows : list R) :
+    from_input R i (map (fun r => (j, r)) rows) = if j =? i then rows else [].
+  Proof.
+    unfold from_input. induction rows as [|r rows IH]; simpl; [destruct (j =? i); auto|].
+    destruct (j =? i) eqn:E; simpl; rewrite IH; auto.
+  Qed.
+
+  Lemma xrun_snoc sched e : xrun (sched ++ [e]) = xstep R St step inputs (xrun sched) e.
+  Proof. unfold Repartition.xrun. now rewrite fold_left_app. Qed.
+
+  Lemma steps_of_snoc i sched e :
+    steps_of i (sched ++ [e]) = steps_of i sched + match e with Step j => if j =? i then 1 else 0 | Drop _ => 0 end.
+  Proof.
+    unfold steps_of. rewrite filter_app, app_length. f_equal. destruct e as [j|p]; simpl; auto. destruct (j =? i); auto.
+  Qed.
+
+  (* the invariant of every reachable state *)
+  Definition xinv (sched : list ev) (st : xst) : Prop :=
+    (forall i, x_pos st i = Nat.min (steps_of i sched) (length (inputs i))) /\
+    (forall i p, fst (prun (s0 i) (firstn (x_pos st i) (inputs i)) p) = x_ps st i) /\
+    (forall p, never_dropped p sched -> x_drop st p = false) /\
+    (forall i p, never_dropped p sched ->
+        from_input R i (x_q st p) = snd (prun (s0 i) (firstn (x_pos st i) (inputs i)) p)) /\
+    (forall p e, In e (x_q st p) -> inputs (fst e) <> []).
+
+  Lemma never_dropped_snoc p sched e : never_dropped p (sched ++ [e]) <-> never_dropped p sched /\ e <> Drop p.
+  Proof.
+    unfold never_dropped. split.
+    - intros H. split; [intros x I; apply H, in_or_app; auto|apply H, in_or_app; right; now left].
+    - intros [H1 H2] x I. apply in_app_or in I as [I|[<-|[]]]; auto.
+  Qed.
+
+  Lemma xinv_run : forall sched, xinv sched (xrun sched).
+  Proof.
+    induction sched as [|e sched IH] using rev_ind.
+    - unfold Repartition.xrun, xinv. simpl. repeat split; auto.
+    - rewrite xrun_snoc. set (st := xrun sched) in *. destruct IH as (P & PS & D & Q & T).
+      destruct e as [j|dp].
+      + (* Step j *)
+        simpl xstep. destruct (nth_error (inputs j) (x_pos st j)) as [b|] eqn:NE.
+        * assert (x_pos st j < length (inputs j)) as Lj by (apply nth_error_Some; congruence).
+          pose proof (firstn_snoc _ _ _ NE) as FS.
+          assert (forall i, Nat.min (steps_of i (sched ++ [Step j])) (length (inputs i)) =
+                            if i =? j then S (x_pos st i) else x_pos st i) as POS.
+          { intros i. rewrite steps_of_snoc. rewrite (Nat.eqb_sym j i).
+            destruct (Nat.eqb_spec i j) as [->|N]; rewrite P in *; lia. }
+          destruct b as [|r b].
+          -- (* empty batch: skipped *)
+             unfold xinv. simpl. repeat split.
+             ++ intros i. rewrite POS. unfold upd. destruct (i =? j) eqn:E; auto. apply Nat.eqb_eq in E. now subst.
+             ++ intros i p. unfold upd. destruct (Nat.eqb_spec i j) as [->|N]; auto.
+                rewrite FS, prun_snoc. specialize (PS j p). destruct (prun (s0 j) (firstn (x_pos st j) (inputs j)) p). auto.
+             ++ intros p ND. apply never_dropped_snoc in ND as [ND _]. auto.
+             ++ intros i p ND. apply never_dropped_snoc in ND as [ND _]. unfold upd.
+                destruct (Nat.eqb_spec i j) as [->|N]; auto.
+                rewrite FS, prun_snoc. specialize (Q j p ND). destruct (prun (s0 j) (firstn (x_pos st j) (inputs j)) p). auto.
+             ++ exact T.
+          -- destruct (step (x_ps st j) (r :: b)) as [s' outs] eqn:ST.
+             unfold xinv. simpl. repeat split.
+             ++ intros i. rewrite POS. unfold upd. destruct (i =? j) eqn:E; auto. apply Nat.eqb_eq in E. now subst.
+             ++ intros i p. unfold upd. destruct (Nat.eqb_spec i j) as [->|N]; auto.
+                rewrite FS, prun_snoc. specialize (PS j p). destruct (prun (s0 j) (firstn (x_pos st j) (inputs j)) p) as [s1 r1].
+                simpl in PS. subst s1. rewrite ST. reflexivity.
+             ++ intros p ND. apply never_dropped_snoc in ND as [ND _]. auto.
+             ++ intros i p ND. apply never_dropped_snoc in ND as [ND _]. rewrite (D p ND).
+                rewrite from_input_app, from_input_tag. unfold upd. rewrite (Nat.eqb_sym j i).
+                destruct (Nat.eqb_spec i j) as [->|N].
+                ** rewrite FS, prun_snoc. specialize (Q j p ND). specialize (PS j p).
+                   destruct (prun (s0 j) (firstn (x_pos st j) (inputs j)) p) as [s1 r1].
+                   simpl in PS, Q. subst s1. rewrite ST. simpl. now rewrite Q.
+                ** rewrite app_nil_r. auto.
+             ++ intros p e I. destruct (x_drop st p); [eauto|].
+                apply in_app_or in I as [I|I]; [eauto|].
+                apply in_map_iff in I as (x & <- & _). simpl. intros Z. rewrite Z in NE. destruct (x_pos st j); discriminate.
+        * (* input exhausted *)
+          assert (length (inputs j) <= x_pos st j) as Lj by (apply nth_error_None; exact NE).
+          unfold xinv. repeat split; auto.
+          -- intros i. rewrite steps_of_snoc, P. rewrite P in Lj. destruct (Nat.eqb_spec j i) as [->|N]; lia.
+          -- intros p ND. apply never_dropped_snoc in ND as [ND _]. auto.
+          -- intros i p ND. apply never_dropped_snoc in ND as [ND _]. auto.
+      + (* Drop dp *)
+        unfold xinv. simpl. repeat split; auto.
+        * intros i. rewrite steps_of_snoc, P. lia.
+        * intros p ND. apply never_dropped_snoc in ND as [ND NE]. unfold upd.
+          destruct (Nat.eqb_spec p dp) as [->|N]; [congruence|auto].
+        * intros i p ND. apply never_dropped_snoc in ND as [ND NE]. unfold upd.
+          destruct (Nat.eqb_spec p dp) as [->|N]; [congruence|auto].
+        * intros p e. unfold upd. destruct (p =? dp); [intros []|eauto].
+  Qed.
+
+  (* a list of tagged entries is a permutation of its per-tag sub-sequences, block after block *)
+  Lemma tagged_perm m : forall q : list (nat * R), Forall (fun e => fst e < m) q ->
+    Permutation q (flat_map (fun i => map (fun r => (i, r)) (from_input R i q)) (seq 0 m)).
+  Proof.
+    intros q F. symmetry. eapply perm_trans; [|apply (perm_by_key (@fst nat R) m q F)].
+    apply Permutation_refl'. apply flat_map_ext_in'. intros i _. unfold from_input.
+    induction q as [|[t r] q IH]; simpl; auto. inversion F; subst.
+    destruct (Nat.eqb_spec t i) as [->|N]; simpl; rewrite IH; auto.
+  Qed.
+
+  (* exchange_exactly_once *)
+  Theorem exchange_delivers : forall m sched p,
+    (forall i, m <= i -> inputs i = []) -> never_dropped p sched ->
+    let st := xrun sched in
+    let got i := snd (prun (s0 i) (firstn (Nat.min (steps_of i sched) (length (inputs i))) (inputs i)) p) in
+    (forall i, from_input R i (x_q st p) = got i) /\
+    Permutation (x_q st p) (flat_map (fun i => map (fun r => (i, r)) (got i)) (seq 0 m)).
+  Proof.
+    intros m sched p Hm ND st got. destruct (xinv_run sched) as (P & PS & D & Q & T). fold st in P, PS, D, Q, T.
+    assert (forall i, from_input R i (x_q st p) = got i) as G.
+    { intros i. unfold got. rewrite <- P. apply Q. exact ND. }
+    split; auto.
+    rewrite <- (flat_map_ext_in' (fun i => map (fun r => (i, r)) (from_input R i (x_q st p)))) by (intros; now rewrite G).
+    apply tagged_perm. apply Forall_forall. intros e I. specialize (T p e I).
+    destruct (le_lt_dec m (fst e)) as [C|C]; auto. exfalso. apply T. apply Hm. exact C.
+  Qed.
+
+  (* once every input task has run to the end, output p holds everything routed to it *)
+  Corollary exchange_complete : forall m sched p,
+    (forall i, m <= i -> inputs i = []) -> never_dropped p sched ->
+    (forall i, i < m -> length (inputs i) <= steps_of i sched) ->
+    let st := xrun sched in
+    (forall i, from_input R i (x_q st p) = snd (prun (s0 i) (inputs i) p)) /\
+    Permutation (x_q st p) (flat_map (fun i => map (fun r => (i, r)) (snd (prun (s0 i) (inputs i) p))) (seq 0 m)).
+  Proof.
+    intros m sched p Hm ND C st. destruct (exchange_delivers m sched p Hm ND) as [A B]. fold st in A, B.
+    assert (forall i, firstn (Nat.min (steps_of i sched) (length (inputs i))) (inputs i) = inputs i) as FN.
+    { intros i. destruct (le_lt_dec m i) as [L|L].
+      - rewrite (Hm i L). now destruct (Nat.min _ _).
+      - specialize (C i L). rewrite Nat.min_r by assumption. apply firstn_all. }
+    split.
+    - intros i. rewrite A, FN. reflexivity.
+    - rewrite B. apply Permutation_refl'. apply flat_map_ext_in'. intros i _. now rewrite FN.
+  Qed.
+
+  (* dropping other outputs does not change what output p receives from each input *)
+  Corollary exchange_drop_independent : forall sched p i, never_dropped p sched ->
+    let no_drops := filter (fun e => match e with Step _ => true | Drop _ => false end) sched in
+    from_input R i (x_q (xrun sched) p) = from_input R i (x_q (xrun no_drops) p).
+  Proof.
+    intros sched p i ND no_drops.
+    destruct (xinv_run sched) as (P & _ & _ & Q & _). destruct (xinv_run no_drops) as (P' & _ & _ & Q' & _).
+    assert (never_dropped p no_drops) as ND'.
+    { intros e I. apply filter_In in I as [I _]. auto. }
+    rewrite Q, Q' by assumption. rewrite P, P'.
+    assert (steps_of i no_drops = steps_of i sched) as ->; auto.
+    unfold steps_of, no_drops. clear. induction sched as [|[j|q] sched IH]; simpl; auto.
+    destruct (j =? i); simpl; auto.
+  Qed.
+End ExchangeProofs.
+
+(* the checker's `routed` (pull_from_input over the concrete partitioner) is the exchange's prun for that partitioner *)
+Definition tstep (sc : scheme) (next : Z) (b : list xrow) : Z * list (nat * list xrow) :=
+  match pstep sc next b with Some r => r | None => (next, []) end.
+
+Lemma routed_prun sc p : forall batches next l,
+  routed sc next batches p = Some l -> snd (prun xrow Z (tstep sc) next batches p) = l.
+Proof.
+  induction batches as [|b r IH]; intros next l H.
+  - simpl in *. congruence.
+  - destruct b as [|x b]; [simpl in *; auto|].
+    change (routed sc next ((x :: b) :: r) p) with
+      (match pstep sc next (x :: b) with
+       | Some (next', outs) => match routed sc next' r p with Some rest => Some (rows_for p outs ++ rest) | None => None end
+       | None => None end) in H.
+    change (prun xrow Z (tstep sc) next ((x :: b) :: r) p) with
+      (let '(s', outs) := tstep sc next (x :: b) in let '(s'', rest) := prun xrow Z (tstep sc) s' r p in (s'', rows_for p outs ++ rest)).
+    unfold tstep at 1. destruct (pstep sc next (x :: b)) as [[next' outs]|]; [|discriminate].
+    destruct (routed sc next' r p) as [rest|] eqn:E; [|discriminate]. injection H as <-.
+    specialize (IH next' rest E). destruct (prun xrow Z (tstep sc) next' r p). simpl in *. now subst.
+Qed.
+
+(* ================================================================== J. preserve_order: per-input streams stay sorted *)
+Lemma SS_app {X} (le : X -> X -> Prop) : forall A B,
+  StronglySorted le (A ++ B) <-> StronglySorted le A /\ StronglySorted le B /\ (forall x y, In x A -> In y B -> le x y).
+Proof.
+  induction A as [|a A IH]; intros B; simpl.
+  - split; [intros H; repeat split; auto; [constructor|intros x y []]|intros (_ & H & _); exact H].
+  - split.
+    + intros H. inversion H; subst. apply IH in H2 as (S1 & S2 & C). rewrite Forall_forall in H3. repeat split; auto.
+      * constructor; auto. apply Forall_forall. intros x I. apply H3, in_or_app. auto.
+      * intros x y [<-|I] J; [apply H3, in_or_app; auto|auto].
+    + intros (S1 & S2 & C). inversion S1; subst. constructor.
+      * apply IH. repeat split; auto.
+      * apply Forall_forall. intros x I. apply in_app_or in I as [I|I]; [rewrite Forall_forall in H2; auto|auto].
+Qed.
+
+(* side conditions for a whole input: partition counts in range, every hash a u64, round-robin index in range *)
+Definition input_ok (s : scheme) (next : Z) (batches : list (list xrow)) : Prop :=
+  match s with
+  | SHash n => 1 <= n /\ (Z.of_nat n < 2 ^ 64)%Z /\ Forall (Forall (fun r => (0 <= xhash r < 2 ^ 64)%Z)) batches
+  | SRoundRobin n => (0 <= next < n)%Z
+  | SRange _ _ => True
+  end.
+
+Lemma input_ok_step s next b r : input_ok s next (b :: r) ->
+  scheme_ok s next b /\ forall next' outs, pstep s next b = Some (next', outs) -> input_ok s next' r.
+Proof.
+  destruct s as [n|n|os sps]; simpl.
+  - intros (H1 & H2 & F). inversion F; subst. repeat split; auto.
+  - intros H. split; auto. intros next' outs E. injection E as <- _. unfold rr_advance. apply Z.mod_pos_bound. lia.
+  - auto.
+Qed.
+
+Theorem routed_total_sorted (le : xrow -> xrow -> Prop) : forall s p batches next, input_ok s next batches ->
+  p < scheme_outputs s ->
+  exists l, routed s next batches p = Some l /\ incl l (concat batches) /\
+    (StronglySorted le (concat batches) -> StronglySorted le l).
+Proof.
+  intros s p. induction batches as [|b r IH]; intros next OK Hp.
+  - exists []. simpl. repeat split; auto. intros x [].
+  - destruct (input_ok_step s next b r OK) as [SOK NXT].
+    destruct b as [|x b].
+    + assert (input_ok s next r) as OK' by (destruct s; simpl in *; auto; destruct OK as (?&?&F); inversion F; auto).
+      destruct (IH next OK' Hp) as (l & E & I & S). exists l. simpl. auto.
+    + destruct (pstep_rows s next (x :: b) SOK) as (next' & outs & E & H).
+      destruct (IH next' (NXT _ _ E) Hp) as (l & El & I & S).
+      exists (rows_for p outs ++ l). split; [|split].
+      * change (routed s next ((x :: b) :: r) p) with
+          (match pstep s next (x :: b) with
+           | Some (next', outs) => match routed s next' r p with Some rest => Some (rows_for p outs ++ rest) | None => None end
+           | None => None end). now rewrite E, El.
+      * rewrite (H p Hp). change (concat ((x :: b) :: r)) with ((x :: b) ++ concat r). intros y J. apply in_app_or in J as [J|J]; apply in_or_app.
+        -- left. apply filter_In in J. tauto.
+        -- right. auto.
+      * change (concat ((x :: b) :: r)) with ((x :: b) ++ concat r). intros SS. apply SS_app in SS as (S1 & S2 & C). apply SS_app. rewrite (H p Hp). repeat split; auto.
+        -- now apply StronglySorted_filter.
+        -- intros u v J1 J2. apply filter_In in J1 as [J1 _]. auto.
+Qed.
